@@ -292,6 +292,32 @@ func (L *outsNet) attack(name string, x outsWire) {
 		q = append(append([]byte(nil), o.data[:16]...), b[16:]...)
 		L.shoot(dst, src, q, false, false, "splice", d("header of another datagram, this body", "other_from", o.from))
 	}
+	// 5b. a relay packet on a terminal record: the relay (or whoever holds the relay tunnel's key) re-wraps a mutated
+	// payload in a perfectly authentic relay packet - the payload must be judged on its own
+	if h.Type == header.Message && h.Subtype == header.MessageRelay && len(b) >= 2*header.Len+16 {
+		if _, rel, _ := dst.Resolve(h.RemoteIndex); rel && L.relOf(dst, h.RemoteIndex) == outsRelTerm {
+			inner := b[header.Len : len(b)-16]
+			owner, _ := dst.RelayOwner(h.RemoteIndex)
+			ctr := owner.WinCur + 1
+			wrap := func(q []byte, m string, extra ...any) {
+				pkt := dst.SealRelay(h.RemoteIndex, h.RemoteIndex, header.Version, 1, 1, ctr, q)
+				ctr++
+				L.shoot(dst, src, pkt, true, false, "rewrapped-payload", d(m, extra...))
+			}
+			for bit := 0; bit < 128; bit++ {
+				wrap(outsFlip(inner, bit), "authentic relay packet around the payload with a flipped header bit", "bit", bit)
+			}
+			for n := 0; n < len(inner); n++ {
+				if n >= 40 && c.Intn(len(inner)) > L.budget {
+					continue
+				}
+				wrap(inner[:n], "authentic relay packet around a truncated payload", "to", n)
+			}
+			for k := 0; k < 2*L.budget; k++ {
+				wrap(outsFlip(inner, 128+c.Intn((len(inner)-16)*8)), "authentic relay packet around the payload with a flipped body bit")
+			}
+		}
+	}
 	// 6. delivered to every other node (wrong receiver, wrong keys)
 	for _, other := range w.order {
 		if other == x.to {
